@@ -153,19 +153,22 @@ class MessageSigner(object):
             # r = 0 (mod order) has no inverse: the pure-Python inverse_mod asserts, OpenSSL returns garbage
             raise EncodingError("r or s out of range")
 
+        # Recovery ids 2 and 3 say that the x coordinate of the nonce point was r + order
+        # (sign_with_recid sets that bit when x > order); it must still be a field element.
+        x = r + order if recid > 1 else r
+        if x >= self._generator.p():
+            raise EncodingError("no nonce point for this recovery id")
+
         # Calculate the specific public key used to sign this message.
+        # (the inverse of x modulo the order is the inverse of r)
         y_parity = recid & 1
         pairs = self._generator.possible_public_pairs_for_signature(
-            msg_hash, (r, s), y_parity=y_parity
+            msg_hash, (x, s), y_parity=y_parity
         )
         if not pairs:
-            # no curve point has the x coordinate r
+            # no curve point has this x coordinate
             raise EncodingError("no public key can be recovered from this signature")
-        q = pairs[0]
-        if recid > 1:
-            order = self._generator.order()
-            q = self._generator.Point(q[0] + order, q[1])
-        return q, is_compressed
+        return pairs[0], is_compressed
 
     def pair_matches_key(self, pair: Any, key: Any, is_compressed: bool) -> bool:
         # Check signing public pair is the one expected for the signature. It must be an
